@@ -676,7 +676,7 @@ func (e *Engine) posOf(fr *Frame, p token.Pos) string {
 }
 
 func shortFile(f string) string {
-	return strings.TrimPrefix(f, "/repo/")
+	return strings.TrimPrefix(f, repoRoot+"/")
 }
 
 // ---- values ----
